@@ -49,6 +49,7 @@ var hostileFragments = []string{
 	"\r", "\n", "\r\n", " \t", "\t", "    ", "\t\t", "//", "<<set $x to ", "<<jump ", "<<declare $x = ", "<<call ", "<<stop>>",
 	"title: ", "title: X\n---\n", "\n===\n", "$x", "[", "]", "<", ">", "/", ":", "true", "1.5", "é", "日本", "\x00", "\xff", "<<enum ", "<<case ",
 	"<<local ", "<<endenum>>", "-> opt\n", "    -> opt\n        deep\n", " #tag", "{1+", "{$x}", "\\{", "\\#", ",", " as string", "<<wait 0>>",
+	"\ufeff", "\u200b", "\u00a0", "\u0085", "\u2028", "9223372036854775808", "\v", "\f",
 }
 
 var miniScripts = []string{
